@@ -156,6 +156,19 @@ def concretize(inputs: Dict[str, Any], input_tys: Dict[str, Ty], model) -> Dict[
     notes = []
     for p, const in inputs.items():
         ty = input_tys[p]
+        if isinstance(const, tuple) and const[0] == 'list':
+            items = []
+            for c_, t_ in zip(const[1], ty[1]):
+                if t_ is None:
+                    items.append(c_)          # concrete element of the shape
+                    continue
+                v_ = model.eval(c_, model_completion=True)
+                try:
+                    items.append(ct.unlift(v_, t_, raw=False))
+                except Exception:
+                    items.append(ct.unlift(v_, t_, raw=True))
+            env[p] = items
+            continue
         val = model.eval(const, model_completion=True)
         try:
             obj = ct.unlift(val, ty, raw=False)
